@@ -17,6 +17,7 @@ package tcell
 import (
 	"os"
 	"reflect"
+	"unicode"
 
 	runewidth "github.com/mattn/go-runewidth"
 )
@@ -67,7 +68,7 @@ func (cb *CellBuffer) SetContent(x int, y int,
 		c.currComb = append([]rune{}, combc...)
 
 		if c.currMain != mainc {
-			c.width = runewidth.RuneWidth(mainc)
+			c.width = cellWidth(mainc)
 		}
 		c.currMain = mainc
 		if style.fg == ColorNone {
@@ -221,7 +222,7 @@ func (cb *CellBuffer) Resize(w, h int) {
 // If either the foreground or background are ColorNone, then the respective
 // color is unchanged.
 func (cb *CellBuffer) Fill(r rune, style Style) {
-	width := runewidth.RuneWidth(r)
+	width := cellWidth(r)
 	for i := range cb.cells {
 		c := &cb.cells[i]
 		c.currMain = r
@@ -236,6 +237,18 @@ func (cb *CellBuffer) Fill(r rune, style Style) {
 		c.currStyle = cs
 		c.width = width
 	}
+}
+
+// cellWidth is the number of columns a rune occupies as the primary content of a
+// cell.  Format characters (Unicode category Cf: bidi controls and isolates,
+// joiners, invisible operators, tags) do not print, whatever the width tables of
+// the runewidth package say about them; like other zero width runes they are
+// shown as a blank.
+func cellWidth(r rune) int {
+	if unicode.Is(unicode.Cf, r) {
+		return 0
+	}
+	return runewidth.RuneWidth(r)
 }
 
 var runeConfig *runewidth.Condition
